@@ -20,7 +20,10 @@
      gen_correct_partial_print  : ONE {print e|d..} with d over id / noAutoescape / escapeHtml, under any
                                   autoescape mode (implicit soy.$$escapeHtml included) -- proved below, for
                                   values whose String() has no NUL and no double quote (finding quote-entity);
-                                  if / let / switch and sequences of statements -- not proved
+     gen_correct_partial_if     : statements built from raw text, such prints and {if}..{else}..{/if} with
+                                  nested blocks (sequences) of such statements -- proved below (three sides:
+                                  Interp walker, MiniJS execution, JsGen chunks);
+                                  let / switch / elseif chains -- not proved
      gen_correct_partial_loops  : foreach / for / loop helpers   -- not proved
      gen_correct_partial_calls  : call / param / data=           -- not proved
      gen_correct_partial_msg    : msg / plural with a bundle     -- not proved
@@ -114,13 +117,40 @@ Print Assumptions C04_gen_correct_partial_print_esc.
 Theorem C04_cgen_print_dirs : forall o e ds fuel st, (S (cdepth e) < fuel)%nat ->
   exists stf, jwalk o fuel (NPrint 0 (cnode e) (map pdir_node ds)) st = Ok (tt, stf)
     /\ j_out stf = rev ([CText (indent_text (j_indent st)); CName (j_buf st); CText t_pluseq]
-                        ++ jprint (cgen_print_expr (j_auto st) ds (cgen (j_scope st) e)) ++ [CText t_semi_nl]) ++ j_out st.
+                        ++ jprint (cgen_print_expr (j_auto st) ds (cgen (j_scope st) e)) ++ [CText t_semi_nl]) ++ j_out st
+    /\ j_indent stf = j_indent st /\ j_buf stf = j_buf st /\ j_scope stf = j_scope st /\ j_auto stf = j_auto st.
 Proof. exact cgen_print_dirs. Qed.
 Print Assumptions C04_cgen_print_dirs.
 
 (* on clean text the escapers of the two backends agree *)
 Theorem C04_print_text_agree : forall mode ds s, clean s -> js_print_text mode ds s = go_print_text mode ds s.
 Proof. exact print_text_agree. Qed.
+
+(* the if stage: statements built from raw text, {print e|ds} and {if c}..{else}..{/if} with nested blocks.
+   [sout] is the subset semantics (the bytes written; None = error or outside the subset).  When it gives a text:
+   (Go) the Interp walker writes exactly that text and restores scope / mode / writer;
+   (JS) executing the generated MiniJS statement appends exactly that text to the buffer variable and keeps env_rel;
+   (Gen) the MiniJS statement is what JsGen emits (chunk for chunk, at the current indentation). *)
+Theorem C04_gen_correct_partial_if : forall cf o sc je st jst s fuel text old,
+  c_oblig cf = [] -> bufs st = [] -> calls_left st = None -> bytes_left st = None ->
+  (sdepth s < fuel)%nat ->
+  env_rel sc (c_ij cf) (sc_lookup (ctx st)) je ->
+  (forall key, bstr_eqb (jsc_lookup sc key) (j_buf jst) = false) -> bstr_eqb t_opt_ij (j_buf jst) = false ->
+  assoc_s (j_buf jst) (je_vars je) = Some (JStr old) ->
+  j_scope jst = sc -> j_auto jst = mode st ->
+  sout (c_ij cf) (sc_lookup (ctx st)) (mode st) go_print_text s = Some text ->
+  (exists st' ws rv, walk cf fuel (snode s) st = (Ok rv, st') /\ out st' = rev ws ++ out st /\ concat_b ws = text
+                     /\ ctx st' = ctx st /\ mode st' = mode st
+                     /\ bufs st' = [] /\ calls_left st' = None /\ bytes_left st' = None)
+  /\ (exists je', js_exec je (sgen sc (mode st) (j_buf jst) s) = Ok je'
+                  /\ assoc_s (j_buf jst) (je_vars je') = Some (JStr (old ++ text))
+                  /\ env_rel sc (c_ij cf) (sc_lookup (ctx st)) je')
+  /\ (exists jstf, jwalk o fuel (snode s) jst = Ok (tt, jstf)
+                   /\ j_out jstf = rev (sprint (j_indent jst) (sgen sc (mode st) (j_buf jst) s)) ++ j_out jst
+                   /\ j_indent jstf = j_indent jst /\ j_buf jstf = j_buf jst
+                   /\ j_scope jstf = j_scope jst /\ j_auto jstf = j_auto jst).
+Proof. exact gen_correct_partial_if_stmt. Qed.
+Print Assumptions C04_gen_correct_partial_if.
 
 (* ---------------- non-vacuity ---------------- *)
 (* $a?.b + 2 * $x  with  a = {b: 5} in opt_data and x bound by a let (generated variable x3) *)
@@ -155,6 +185,29 @@ Example C04_print_esc_nonvacuous :
   /\ go_print_text 1 [] (b "1<2 & it's") = b "1&lt;2 &amp; it&#39;s"
   /\ go_print_text 1 [PEscapeHtml; PId] (b "1<2") = b "1&lt;2" /\ js_print_text 3 [PNoAutoescape] (b "1<2") = b "1<2"
   /\ js_print_text 1 [] (b "q""q") = b "q&quot;q" /\ go_print_text 1 [] (b "q""q") = b "q&#34;q".
+Proof. vm_compute. repeat split; reflexivity. Qed.
+
+(* {if $x > 3}A{$a.b}{else}B{/if}C  with x = 4 (generated variable x3), a.b = 5 *)
+Definition ex_stmt : cstmt :=
+  SIf (CBool true)
+      [SIf (CBin OGt (CVar (b "x") []) (CInt 3)) [SRaw (b "A"); SPrint (CVar (b "a") [CAKey false (b "b")]) []] true [SRaw (b "B")];
+       SRaw (b "C")] false [].
+Example C04_if_nonvacuous :
+  sout None ex_env 1 go_print_text ex_stmt = Some (b "A5C")
+  /\ (match js_exec {| je_vars := [(b "output", JStr []); (b "x3", JNum 4)]; je_data := JObj [(b "a", JObj [(b "b", JNum 5)])] |}
+                     (sgen ex_sc 1 (b "output") ex_stmt) with
+      | Ok je' => assoc_s (b "output") (je_vars je') | _ => None end) = Some (JStr (b "A5C"))
+  /\ render_chunks is_print_tbl (sprint 1 (sgen ex_sc 1 (b "output") ex_stmt)) = b
+"  if (true) {
+    if (((x3) > (3))) {
+      output += 'A';
+      output += soy.$$escapeHtml(opt_data.a.b);
+    } else {
+      output += 'B';
+    }
+    output += 'C';
+  }
+".
 Proof. vm_compute. repeat split; reflexivity. Qed.
 
 (* env_rel is satisfiable for that environment: x is in the generated variable, a in opt_data *)
